@@ -355,6 +355,8 @@ def atom_elem(name, idx, valued=False):
     if valued:
         sorts = [z3.IntSort()] * len(idx) + [z3.RealSort()]
         fre = z3.Function(name + "_re", *sorts)
+        if valued == "real":
+            return LF(C(fre(*idx)))
         fim = z3.Function(name + "_im", *sorts)
         return LF(C(fre(*idx), fim(*idx)))
     return LF(C0, [Term((), (), C1, name, idx)])
@@ -1649,6 +1651,7 @@ class _Numpy(_NS):
     complex64 = "complex64"
     complex128 = "complex128"
     complexfloating = "complexfloating"
+    floating = "floating"
     linalg = _Linalg()
     zeros = staticmethod(_zeros)
     ones = staticmethod(_ones)
@@ -1690,6 +1693,8 @@ class _Numpy(_NS):
         a = as_dtype(a)
         if b in ("complexfloating",):
             return a.kind == "c"
+        if b in ("floating",):
+            return a.kind == "f"
         raise Unsupported("issubdtype(%r, %r)" % (a, b))
 
     fft = None   # set below
@@ -1702,7 +1707,7 @@ def builtins_ns():
     """names that shadow builtins inside the compiled repo code"""
     return dict(max=core.sym_max, min=core.sym_min, all=core.sym_all, any=core.sym_any, sum=_builtin_sum, round=lambda x, n=None: _np_round(_scalar(x)),
                 abs=core.sym_abs, int=_int, range=sym_range, len=_len, isinstance=_isinstance, float=_float,
-                __pyvc_iter=pyvc_iter, __pyvc_and=pyvc_and, __pyvc_or=pyvc_or, __pyvc_not=pyvc_not, __pyvc_augstore=pyvc_augstore, __pyvc_cond=pyvc_cond)
+                __pyvc_frac=lambda a, b: Sym(z3.RealVal(a) / z3.RealVal(b)) if b != 0 else a / b, __pyvc_iter=pyvc_iter, __pyvc_and=pyvc_and, __pyvc_or=pyvc_or, __pyvc_not=pyvc_not, __pyvc_augstore=pyvc_augstore, __pyvc_cond=pyvc_cond)
 
 
 def _builtin_sum(it, start=0):
@@ -2556,6 +2561,21 @@ def comprehension_goals(a, b):
             continue
         ren = [(by.v, bx.v) for bx, by in zip(rx, ry)]
         rn = lambda e: z3.substitute(e, *ren) if ren else e
+        # functionally defined variables with the same definition on both sides denote the same value: identify them
+        for by in y.binders:
+            if by.kind == "def":
+                a2, d2 = z3.simplify(rn(by.a)), z3.simplify(rn(by.d))
+                for bx in x.binders:
+                    if bx.kind == "def" and z3.simplify(bx.a).eq(a2) and z3.simplify(bx.d).eq(d2):
+                        ren += [(by.q, bx.q), (by.r, bx.r)]
+                        break
+            elif by.kind == "fdef":
+                for bx in x.binders:
+                    if bx.kind == "fdef" and bx.v.sort() == by.v.sort():
+                        c2 = z3.simplify(z3.substitute(rn(by.cons), (by.v, bx.v)))
+                        if c2.eq(z3.simplify(bx.cons)):
+                            ren.append((by.v, bx.v))
+                            break
         defs = [bb.range_cond() for bb in x.binders if bb.kind != "range"] + [rn(bb.range_cond()) for bb in y.binders if bb.kind != "range"]
         dset_x = [bb.range_cond() for bb in x.binders if bb.kind != "range"]
         dset_y = [bb.range_cond() for bb in y.binders if bb.kind != "range"]
